@@ -1,0 +1,32 @@
+//go:build verif
+
+package proxy
+
+// Verification hook for property C33 (PROXY protocol trust). Add-only, no behaviour change:
+// it exposes the unexported connection wrapper.
+
+import (
+	"net"
+	"time"
+
+	"go.minekube.com/gate/pkg/edition/java/config"
+	"go.minekube.com/gate/pkg/util/netutil"
+)
+
+// VerifC33Wrap wraps conn with the real proxyProtocol wrapper built from cfg (the way the
+// listener does: newProxyProtocol + wrapConn). A negative timeout uses wrapConn's default
+// header timeout, otherwise wrapConnTimeout(timeout) is called. nilWrapper exercises the nil
+// *proxyProtocol (must fail closed).
+func VerifC33Wrap(cfg *config.Config, conn net.Conn, timeout time.Duration, nilWrapper bool) (wrapped net.Conn, trusted netutil.TrustedNetworks, err error) {
+	var pp *proxyProtocol
+	if !nilWrapper {
+		pp, err = newProxyProtocol(cfg)
+		if err != nil {
+			return nil, nil, err
+		}
+	}
+	if timeout < 0 {
+		return pp.wrapConn(conn), pp.trustedNetworks(), nil
+	}
+	return pp.wrapConnTimeout(conn, timeout), pp.trustedNetworks(), nil
+}
